@@ -105,10 +105,13 @@ func (a *Accessory) Identify() {
 // Adds a service to the accessory and updates the ids of the service and the corresponding characteristics
 func (a *Accessory) AddService(s *service.Service) {
 	a.Services = append(a.Services, s)
+	a.UpdateIDs()
 }
 
 // UpdateIDs updates the service and characteirstic ids.
+// The ids depend on the order of the services only.
 func (a *Accessory) UpdateIDs() {
+	a.idCount = 1
 	for _, s := range a.Services {
 		s.ID = a.idCount
 		a.idCount++
